@@ -1931,6 +1931,15 @@ def matrix_step(p, mt, m, step, what):
     raise _Skip(f'not a matrix step {k}')
 
 
+def _untyped(x):
+    """a container that imputes to an unknown element type: empty, or holding only missing values / such containers"""
+    if isinstance(x, dict) or type(x).__name__ == 'frozendict':
+        return all((k is None or _untyped(k)) and (v is None or _untyped(v)) for k, v in x.items())
+    if isinstance(x, (list, tuple, set, frozenset)) or type(x).__name__ == 'frozenlist':
+        return all(e is None or _untyped(e) for e in x)
+    return False
+
+
 def _first_rejected_leaf(d, val):
     """'<hail type>:<python type>' of the first leaf of val that the imputed type d does not accept"""
     found = []
@@ -1947,7 +1956,7 @@ def _first_rejected_leaf(d, val):
             elif isinstance(x, (list, tuple, set, frozenset, dict)) or type(x).__name__ in ('frozenlist', 'frozendict'):
                 # a container sitting where the unified type has a scalar: an EMPTY container imputes to an element type of None,
                 # which super_unify_types drops instead of refusing (same leniency as the struct-union finding)
-                found.append('container-unified-away' if len(x) == 0 else f'{tt}<-{mod}.{type(x).__name__}')
+                found.append('container-unified-away' if _untyped(x) else f'{tt}<-{mod}.{type(x).__name__}')
             else:
                 found.append(f'{tt}<-{mod}.{type(x).__name__}')
             return False
